@@ -39,12 +39,12 @@ def main():
     s = rd("runtime/runtime2.go")
     s = sub_once(s, "\tvalgrindStackID uintptr\n}\n",
                  "\tvalgrindStackID uintptr\n\n\t// verif: simulator-owned random stream of this goroutine\n"
-                 "\tvsSeed  uint64\n\tvsCtr   uint64\n\tvsSpawn uint64\n\tvsEpoch uint64\n\tvsLocks int64 // sync.Mutex/RWMutex acquisitions minus releases made by this goroutine\n}\n", "runtime2.go g struct")
+                 "\tvsSeed  uint64\n\tvsCtr   uint64\n\tvsSpawn uint64\n\tvsEpoch uint64\n\tvsParent uint64 // lineage id of the goroutine that started this one\n\tvsLocks int64 // sync.Mutex/RWMutex acquisitions minus releases made by this goroutine\n}\n", "runtime2.go g struct")
     wr("runtime/runtime2.go", s)
 
     s = rd("runtime/proc.go")
     s = sub_once(s, "\tnewg.gopc = callerpc\n",
-                 "\tnewg.gopc = callerpc\n\tnewg.vsSeed, newg.vsCtr, newg.vsSpawn, newg.vsEpoch, newg.vsLocks = verifSpawnSeed(callergp), 0, 0, 0, 0\n",
+                 "\tnewg.gopc = callerpc\n\tnewg.vsSeed, newg.vsCtr, newg.vsSpawn, newg.vsEpoch, newg.vsLocks = verifSpawnSeed(callergp), 0, 0, 0, 0\n\tnewg.vsParent = 0\n\tif callergp != nil {\n\t\tnewg.vsParent = callergp.vsSeed\n\t}\n",
                  "proc.go newproc1")
     wr("runtime/proc.go", s)
 
@@ -82,6 +82,9 @@ def main():
     s = sub_once(s, "func (rw *RWMutex) RUnlock() {\n", "func (rw *RWMutex) RUnlock() {\n\truntime_verifLockDelta(-1)\n", "sync RWMutex.RUnlock")
     s = sub_once(s, "\t\tif rw.readerCount.CompareAndSwap(c, c+1) {\n", "\t\tif rw.readerCount.CompareAndSwap(c, c+1) {\n\t\t\truntime_verifLockDelta(1)\n", "sync RWMutex.TryRLock")
     wr("sync/rwmutex.go", s)
+    s = rd("sync/waitgroup.go")
+    s = sub_once(s, "func (wg *WaitGroup) Wait() {\n", "func (wg *WaitGroup) Wait() {\n\tverifWaitGroupWait(wg)\n", "sync WaitGroup.Wait")
+    wr("sync/waitgroup.go", s)
     wr("sync/verifsim.go", SYNC_VERIFSIM)
 
     # ---------------- time: the wall clock of selected goroutines belongs to the simulator ----
@@ -204,6 +207,11 @@ func sync_verifLockDelta(d int64) {
 	getg().vsLocks += d
 }
 
+// VerifParentGID returns the lineage id of the goroutine that started the calling one.
+func VerifParentGID() uint64 {
+	return getg().vsParent
+}
+
 // VerifLocksHeld reports how many sync.Mutex / sync.RWMutex acquisitions the calling
 // goroutine has made and not yet released (sync.Once and sync.Map hold one inside).
 func VerifLocksHeld() int64 {
@@ -261,6 +269,26 @@ func verifMutexLock(m *Mutex) bool {
 	}
 	runtime_verifLockDelta(1)
 	return true
+}
+
+// VerifWait does for WaitGroup.Wait what VerifMutex does for Mutex.Lock: while the counter
+// is not zero a selected caller (IsTarget) sits at a scheduling point (Before; attempt counts
+// from 0) instead of blocking inside the runtime, where a sequential simulator could not see
+// that it no longer runs.
+var VerifWait atomic.Pointer[VerifMutexHooks]
+
+func verifWaitGroupWait(wg *WaitGroup) {
+	h := VerifWait.Load()
+	if h == nil {
+		return
+	}
+	var pcs [1]uintptr
+	if runtime.Callers(3, pcs[:]) == 0 || !h.IsTarget(pcs[0]) {
+		return
+	}
+	for attempt := 0; int32(wg.state.Load()>>32) != 0; attempt++ {
+		h.Before(unsafe.Pointer(wg), pcs[0], attempt)
+	}
 }
 '''
 
